@@ -16,7 +16,7 @@ def gen_knn_case(rng, tier, *, model=None, metrics=None, max_n=None, gclasses=No
     if max_n:
         n = min(n, max_n)
     d = int(rng.integers(1, 6))
-    gclasses = gclasses or ("G1", "G2", "G3", "G4", "G5", "G6", "GJ")
+    gclasses = gclasses or ("G1", "G2", "G3", "G4", "G5", "G6", "GJ", "G7S")
     gc = gclasses[int(rng.integers(0, len(gclasses)))]
     metric = metrics[int(rng.integers(0, len(metrics)))] if metrics else "log_squared_euclidean"
     kind = T[metric][1]
